@@ -187,6 +187,10 @@ def Grid.span (g : Grid) (q : Quad) : Option Span := do
 def Grid.spanIn (g : Grid) (q : Quad) : Option Span :=
   (g.span q).map fun s => ⟨s.minX, s.minY, Nat.min s.maxX (g.cols - 1), Nat.min s.maxY (g.rows - 1)⟩
 
+/-- the hypothesis of `Props/C20Total` about a span: its far cell exists, its near cell is at most one past the last -/
+def Grid.inside (g : Grid) (s : Span) : Bool :=
+  s.minX ≤ g.cols && s.minY ≤ g.rows && s.maxX < g.cols && s.maxY < g.rows
+
 /-- `ExpandToFitPoint` -/
 def Grid.expand (g : Grid) (p : V3) : Option Grid :=
   if p.x >= g.min.x && p.z >= g.min.z && p.x < g.max.x && p.z < g.max.z then some g else
@@ -230,7 +234,7 @@ def Grid.mergeQuads (g : Grid) (eid : Nat) (nq : Quad) : Option Grid := do
   let s1 ← g.spanIn eq'
   let cells ← reRegister g.cells eid s0 s1
   -- ghost: the move starts from the span the plane was registered with
-  let bad := if g.spans[eid]? == some s0 then 0 else 1
+  let bad := (if g.spans[eid]? == some s0 then 0 else 1) + (if g.inside s0 && g.inside s1 then 0 else 1)
   pure { g with cells, quads := g.quads.set! eid { eq' with mergeCount := eq'.mergeCount + 1 }, mergeCount := g.mergeCount + 1,
                 spans := g.spans.set! eid s1, spanChecks := g.spanChecks + 1, spanDrift := g.spanDrift + bad }
 
@@ -271,7 +275,7 @@ def Grid.insert (g : Grid) (q : Quad) : Option Grid := do
     let id := g.quads.size
     let cells ← register g.cells id s'
     pure { g with cells, quads := g.quads.push q, planeCount := g.planeCount + 1, spans := g.spans.push s',
-                  spanChecks := g.spanChecks + 1 }
+                  spanChecks := g.spanChecks + 1, spanDrift := g.spanDrift + (if g.inside s' then 0 else 1) }
   else pure g
 
 /-- `GetRegion` (with the guard for an empty clamped box): the distinct quad ids of the covered cells -/
